@@ -172,25 +172,34 @@ inductive ReadObs
   | read (n : Nat) (frame : Option Nat)
 deriving Repr, DecidableEq
 
+/-- The MAX_STREAM_DATA decision of `Recv::poll_read` after `nread` bytes were consumed:
+new limit and the frame value if one is emitted. -/
+def growWindow (msd nread : Nat) : Nat × Option Nat :=
+  if nread + THRESHOLD > msd then
+    let m := min (nread + THRESHOLD * 2) VARINT_MAX
+    if m > msd then (m, some m) else (msd, none)
+  else (msd, none)
+
+/-- Install the buffer after a read and apply the MAX_STREAM_DATA decision. -/
+def RecvHalf.grow (h : RecvHalf) (b : RecvBuf.State) : RecvHalf × Option Nat :=
+  let g := growWindow h.msd b.nread
+  ({ h with buf := b, msd := g.1, advertised := h.advertised ++ g.2.toList }, g.2)
+
 /-- `Reader::poll_read` with `cap` bytes of room. -/
 def RecvHalf.read (h : RecvHalf) (cap : Nat) : RecvHalf × ReadObs :=
   match h.phase with
   | .recv =>
     if !RecvBuf.isReadable h.buf then (h, .pending) else
-    let (b, out) := RecvBuf.tryRead h.buf cap
-    let h := { h with buf := b }
-    if b.nread + THRESHOLD > h.msd then
-      let m := min (b.nread + THRESHOLD * 2) VARINT_MAX
-      if m > h.msd then ({ h with msd := m, advertised := h.advertised ++ [m] }, .read out.length (some m))
-      else (h, .read out.length none)
-    else (h, .read out.length none)
+    let r := RecvBuf.tryRead h.buf cap
+    let hg := h.grow r.1
+    (hg.1, .read r.2.length hg.2)
   | .sizeKnown _ =>
     if !RecvBuf.isReadable h.buf then (h, .pending) else
-    let (b, out) := RecvBuf.tryRead h.buf cap
-    ({ h with buf := b }, .read out.length none)
+    let r := RecvBuf.tryRead h.buf cap
+    ({ h with buf := r.1 }, .read r.2.length none)
   | .done =>
-    let (b, out) := RecvBuf.tryRead h.buf cap
-    ({ h with buf := b }, .read out.length none)
+    let r := RecvBuf.tryRead h.buf cap
+    ({ h with buf := r.1 }, .read r.2.length none)
 
 /-! ## operation languages (the quantifier domains of the stream-level theorems) -/
 
